@@ -861,7 +861,7 @@ Proof.
   repeat (apply andb_prop in S; destruct S as [S ?]). unfold tables_okb in S.
   rewrite forallb_forall in S. pose proof (S _ (tables_get_in _ _ _ Ht)) as St. simpl in St.
   rewrite forallb_forall in St. intros k m Hk. pose proof (St _ (tab_get_in _ _ _ Hk)) as Hm.
-  unfold mass_okb in Hm. simpl in Hm. apply andb_prop in Hm. destruct Hm as [H1 H2].
+  unfold mass_okb in Hm. cbn [snd] in Hm. apply andb_prop in Hm. destruct Hm as [Hm1 Hm2].
   split; apply Qeq_bool_iff; assumption.
 Qed.
 
